@@ -205,6 +205,53 @@ func checkC09(c *Check) {
 				why = "the removal is not conditional on the end of the session: " + w
 				continue
 			}
+			// evidence read from the hold queue must be read before the
+			// queue is flushed: the flush empties it
+			if e == nil {
+				late := false
+				for _, g := range d.Guards {
+					var call *ssa.Call
+					if cl, isCall := g.V.(*ssa.Call); isCall {
+						call = cl
+					} else if g.X != nil {
+						for _, a := range g.X.Alts() {
+							if a.K == "call" {
+								if cl, isCall := a.V.(*ssa.Call); isCall {
+									call = cl
+								}
+							}
+						}
+					}
+					if call == nil {
+						continue
+					}
+					sc := staticCallee(call.Common())
+					if sc == nil || !InRepo(sc) {
+						continue
+					}
+					if okP, _ := t.trueOnlyOnCredDisp(sc); !okP {
+						continue
+					}
+					// position of the flush in the function of the predicate call
+					var fl ssa.Instruction
+					if f.Ins.Parent() == call.Parent() {
+						fl = f.Ins
+					} else {
+						for _, fr := range f.Frames {
+							if fr.Parent() == call.Parent() {
+								fl = fr
+							}
+						}
+					}
+					if fl != nil && reachesInstr(fl, call) && !reachesInstr(call, fl) {
+						late = true
+					}
+				}
+				if late {
+					why = "the end of the session is looked for in the hold queue after the queue was flushed (the flush empties it): the test never succeeds and the ended session is never released"
+					continue
+				}
+			}
 			okDel = &dels[i]
 			why = w
 			break
@@ -311,7 +358,7 @@ func checkC09(c *Check) {
 	// 6. the end-of-session record of a session still waiting for its login
 	// is in the hold queue: every delivered event of an unbound session is
 	// held (never dropped), in a queue that is the object's own (rules of C02)
-	ne := importRules(c, "C02", checkC02, "end-record-held: ", "exactly-one-of", "hold-iff-unbound", "queue-private", "event-reaches-correlation")
+	ne := importRules(c, "C02", checkC02, "end-record-held: ", "exactly-one-of", "hold-iff-unbound", "queue-private", "event-reaches-correlation", "hold-keeps-queue")
 	c.Floor("imported end-record-held obligations", 10, ne)
 	// 7. the login of the new sshd with a reused PID reaches the correlator:
 	// every accepted login is handed over, whatever PIDs were seen before
@@ -331,10 +378,17 @@ func containsUserPtr(tp types.Type, user *types.Named, depth int) bool {
 		if n, ok := u.Elem().(*types.Named); ok && n.Obj() == user.Obj() {
 			return true
 		}
-		return false
+		return containsUserPtr(u.Elem(), user, depth+1)
 	case *types.Named:
 		if u.Obj() == user.Obj() {
 			return false
+		}
+		if ta := u.TypeArgs(); ta != nil {
+			for i := 0; i < ta.Len(); i++ {
+				if containsUserPtr(ta.At(i), user, depth+1) {
+					return true
+				}
+			}
 		}
 		if u.Obj().Pkg() == nil || !strings.HasPrefix(u.Obj().Pkg().Path(), ModPath) {
 			return false
